@@ -1034,6 +1034,18 @@ pub async fn process_multiple_changes(
                     } else {
                         debug!(%actor_id, %version, "still have {gaps_count} gaps in partially buffered seqs: {:?}", seqs.gaps(&full_seqs_range).collect::<Vec<_>>());
                     }
+                } else {
+                    // the versions were stored from a complete changeset (or recorded as
+                    // cleared): a partial entry left from earlier chunks is obsolete, the
+                    // node must stop advertising missing sequences for them
+                    let stale: Vec<_> = booked_write
+                        .partials
+                        .range(versions.clone())
+                        .map(|(v, _)| *v)
+                        .collect();
+                    for v in stale {
+                        booked_write.partials.remove(&v);
+                    }
                 }
             }
         }
